@@ -25,6 +25,13 @@ def build(seed, prop, idx, o=None):
     must = list(o.get("must_aggregates", []))
     aggregates = o.get("aggregates") or gen.random_aggregates(rng, el, must=must)
     alphas = o.get("alphas") or gen.random_alphas(rng)
+    if o.get("int_key"):
+        # dtype variety: grouping columns delivered as integers (a baseline file read without dtype=str); their numeric
+        # order (1, 2, 10) differs from the order of their string form (1, 10, 2)
+        for col in ("district", "county_fips"):
+            if col in el.pre.columns and (col != "district" or el.district):
+                el.pre[col] = el.pre[col].astype(int)
+        el.meta["int_key"] = True
     if o.get("cat_key"):
         # dtype variety: the finest requested grouping column is a pandas categorical that also lists levels no unit
         # has (e.g. a district that has no unit in this state file).  Only that column is requested, because the
@@ -50,7 +57,9 @@ def build(seed, prop, idx, o=None):
             # options ordinary runs leave at their defaults
             r = int(rng.integers(0, 5))
             if r == 0:
-                mp["strata"] = [[], ["county_fips"], ["county_classification", "county_fips"]][int(rng.integers(0, 3))]
+                few = el.pre.county_fips.nunique() <= 8  # a stratum per county is slow beyond a handful of counties
+                mp["strata"] = [[], ["county_fips"] if few else ["postal_code"],
+                                ["county_classification", "county_fips" if few else "postal_code"]][int(rng.integers(0, 3))]
             elif r == 1:
                 mp["y_unobserved_lower_bound"], mp["y_unobserved_upper_bound"] = [(-0.5, 0.5), (-1.0, 0.0), (0.0, 0.0)][
                     int(rng.integers(0, 3))]
